@@ -870,10 +870,22 @@ func randomCursor(r *rng.R, d []edge) curArg {
 	return curOf(rng.Pick(r, extremeTimes), rng.Pick(r, idPool))
 }
 
+// DateTime arguments outside the int64-nanosecond range (1677-09-21 .. 2262-04-11): the scalar
+// accepts years 0000-9999 and zone offsets up to +-23:59, so instants from 31 December of the year
+// -1 to 1 January 10000; Go's zero time; the ends of the int64 range to the nanosecond
 var farTimes = []time.Time{
 	time.Date(1, 1, 1, 0, 0, 0, 0, time.UTC), time.Date(1, 1, 1, 0, 0, 0, 1, time.UTC),
 	time.Date(1600, 2, 3, 4, 5, 6, 7, time.UTC), time.Date(2999, 12, 31, 23, 59, 59, 999999999, time.UTC),
 	time.Date(3000, 1, 1, 0, 0, 0, 0, time.UTC), time.Date(9999, 12, 31, 23, 59, 59, 0, time.UTC),
+	time.Date(0, 1, 1, 0, 0, 0, 0, time.UTC), time.Date(0, 12, 31, 23, 59, 59, 999999999, time.UTC),
+	time.Date(0, 1, 1, 0, 0, 0, 0, time.FixedZone("", 23*3600+59*60)),                  // the year -1
+	time.Date(9999, 12, 31, 23, 59, 59, 999999999, time.FixedZone("", -23*3600-59*60)), // the year 10000
+	time.Date(1, 1, 1, 0, 0, 0, 0, time.FixedZone("", 5*3600)),                         // before the zero time
+	time.Unix(0, math.MinInt64).UTC(), time.Unix(0, math.MinInt64).UTC().Add(-time.Nanosecond),
+	time.Unix(0, math.MaxInt64).UTC(), time.Unix(0, math.MaxInt64).UTC().Add(time.Nanosecond),
+	time.Unix(0, math.MaxInt64).In(time.FixedZone("", -7*3600)).Add(2 * time.Nanosecond),
+	time.Date(1677, 9, 21, 0, 12, 43, 145224191, time.UTC), time.Date(2262, 4, 11, 23, 47, 16, 854775808, time.UTC),
+	time.Date(2263, 1, 1, 0, 0, 0, 0, time.UTC), time.Date(1677, 1, 1, 0, 0, 0, 0, time.UTC),
 }
 
 func randomBound(r *rng.R, d []edge) *time.Time {
@@ -1203,6 +1215,62 @@ func main() {
 					return e.single(a, randomPres(r))
 				})
 			}
+		}
+
+		// I. DateTime arguments outside the int64-nanosecond range against edges and cursors at the
+		// ends of that range: every pair of far bounds, with and without cursors
+		{
+			mx, mn := int64(math.MaxInt64), int64(math.MinInt64)
+			d := []edge{{mn, "a"}, {mn, "b"}, {mn + 1, "a"}, {0, "a"}, {mx - 1, "a"}, {mx, "a"}, {mx, "b"}}
+			curs := []curArg{nil, curOf(mn, "a"), curOf(mx, "a"), curOf(0, "")}
+			for i := range farTimes {
+				for j := range farTimes {
+					i, j := i, j
+					h.Case(func(r *rng.R) sexp.Node {
+						e := randomEnv(r, run, shuffled(r, d))
+						a := argSpec{From: &farTimes[i], To: &farTimes[j], After: rng.Pick(r, curs), Before: rng.Pick(r, curs), Info: true}
+						if r.Bool() {
+							a.First = intp(rng.Pick(r, []int{0, 1, 10}))
+						} else {
+							a.Last = intp(rng.Pick(r, []int{0, 1, 10}))
+						}
+						if r.Chance(1, 3) {
+							a.From = nil
+						} else if r.Chance(1, 3) {
+							a.To = nil
+						}
+						return e.single(a, randomPres(r))
+					})
+				}
+			}
+		}
+
+		// J. NewTimeBasedCursor / TimeBasedCursor.Time on time.Time values of the years 0-9999, in
+		// any location: the model's int64 wrap-around against the library's constructor
+		nFar := 400
+		if thorough {
+			nFar = 20000
+		}
+		for i := 0; i < nFar; i++ {
+			i := i
+			h.Case(func(r *rng.R) sexp.Node {
+				var t time.Time
+				switch {
+				case i < len(farTimes):
+					t = farTimes[i]
+				case r.Chance(1, 3): // around the ends of the int64 range
+					t = time.Unix(0, rng.Pick(r, []int64{math.MinInt64, math.MaxInt64})).Add(time.Duration(r.Range(-3, 3)))
+				case r.Chance(1, 2): // any second of the years 0-9999
+					t = time.Unix(int64(r.Range(-62167219200, 253402300799)), int64(r.Range(0, 999999999)))
+				default: // inside the range
+					t = time.Unix(int64(r.Range(-9223372036, 9223372036)), int64(r.Range(0, 999999999)))
+				}
+				t = t.In(time.FixedZone("", rng.Pick(r, zones)))
+				c := apifu.NewTimeBasedCursor(t, "x")
+				back := c.Time()
+				return sexp.T("far", zbig(big.NewInt(t.Unix())), sexp.Int(t.Nanosecond()), z64(c.Nano),
+					zbig(big.NewInt(back.Unix())), sexp.Int(back.Nanosecond()))
+			})
 		}
 
 		// F. hostile stream: both / neither / negative counts, undecodable cursor strings
